@@ -503,7 +503,9 @@ func (peer *peer) llgrRestartTimerExpired(family bgp.Family) bool {
 		if a.State.Family == family {
 			conf.AfiSafis[i].LongLivedGracefulRestart.State.PeerRestartTimerExpired = true
 		}
-		s := a.LongLivedGracefulRestart.State
+		// (the element, not the loop's copy of it: the copy does not see the
+		// flag set just above)
+		s := conf.AfiSafis[i].LongLivedGracefulRestart.State
 		if s.Received && !s.PeerRestartTimerExpired {
 			all = false
 		}
